@@ -99,10 +99,36 @@ def rule_D1(ctx):
     # D1b: char -> u8 `as` casts in data::parsing (expected count zero: no floor, the fixture control keeps the rule honest)
     def d1b_sites(f):
         out = []
+        # a local that a match arm has pinned to ASCII character literals (`'\\' | '\'' => push(c as u8)`) is as exact as a literal
+        pinned = {}
+        def ascii_lits(pat):
+            alts = pat.get("pats") if pat.get("k") == "Or" else [pat]
+            vals = []
+            for a in alts or []:
+                while isinstance(a, dict) and a.get("k") in ("Ref", "Deref"):
+                    a = a["pat"]
+                e_ = a.get("e") if isinstance(a, dict) and a.get("k") in ("Lit", "Expr", "PatLit") else None
+                lit = (a.get("lit") if isinstance(a, dict) else None) or ((e_ or {}).get("lit") if isinstance(e_, dict) else None)
+                if not lit or lit.get("t") != "char":
+                    return False
+                v = lit.get("v")
+                if not isinstance(v, str) or len(v) != 1 or ord(v) > 0x7F:
+                    return False
+                vals.append(v)
+            return bool(vals)
+        for m in walk(f["hir"]):
+            if m.get("k") == "Match":
+                sc = peel(m.get("scrut") or {})
+                if sc.get("k") == "Path" and sc.get("res") == "local":
+                    for arm in m["arms"]:
+                        if arm.get("guard") is None and ascii_lits(arm["pat"]):
+                            for x in walk(arm["body"]):
+                                pinned.setdefault(id(x), set()).add(sc["lid"])
         for n in walk(f["hir"]):
             if n.get("k") == "Cast" and n.get("from_ty") == "char" and n.get("ty") == "u8":
                 inner = peel(n["e"])
-                out.append((n, inner.get("k") == "Lit"))  # a constant ASCII escape like '\n' as u8 is exact
+                exact = inner.get("k") == "Lit" or (inner.get("k") == "Path" and inner.get("res") == "local" and inner.get("lid") in pinned.get(id(n), set()))
+                out.append((n, exact))  # a constant ASCII escape like '\n' as u8 is exact
         return out
     casts = 0
     parsing_fns = 0
